@@ -187,4 +187,81 @@ example : parse ['1', ' ', '2'] = none := by rfl
 example : closeFollow [',', '1'] ∧ closeFollow [] ∧ numFollow [']'] := by
   refine ⟨Or.inl rfl, trivial, ?_⟩; simp only [numFollow]; decide
 
+/-! ## today's behaviour (pinned tree): the two findings, as theorems about the pinned mirrors
+
+`parseCharsPinned` and `pinnedMag` (end of `Model/Json.lean`) mirror what the library does TODAY at
+the two places where it deviates from the statements above; `Dbl`/`roundDbl` is IEEE binary64
+round-to-nearest-even on exact rationals (validated against Python's `float()` and against the
+implementation by the `flt` lines of the correspondence run, not by a theorem). -/
+
+/-- **C41-1, universally.** Today every `\uXXXX` escape whose code unit is a surrogate — also the
+    first half of a well-formed pair, for which `C41_surrogate_pair_decodes` demands a character —
+    leaves the string, hence the document, without an answer. -/
+theorem C41_pinned_any_surrogate_escape_rejected {a b c d : Char} {n : Nat} (r : List Char)
+    (h1 : hex4 a b c d = some n) (hs : isHighSurr n = true ∨ isLowSurr n = true) :
+    parseCharsPinned ('\\' :: 'u' :: a :: b :: c :: d :: r) = none := by
+  rw [parseCharsPinned.eq_def]
+  rcases hs with hs | hs <;> simp [h1, hs]
+
+/-- **Witness of C41-1.** `"😀"` is a sentence of the grammar denoting the one-character
+    string U+1F600 and the repaired reader returns it; today's reader gives no answer. -/
+theorem C41_pinned_rejects_surrogate_pair :
+    Doc (.str [Char.ofNat 0x1F600]) ['"', '\\', 'u', 'd', '8', '3', 'd', '\\', 'u', 'd', 'e', '0', '0', '"']
+    ∧ parseChars ['\\', 'u', 'd', '8', '3', 'd', '\\', 'u', 'd', 'e', '0', '0', '"'] = some ([Char.ofNat 0x1F600], [])
+    ∧ parseCharsPinned ['\\', 'u', 'd', '8', '3', 'd', '\\', 'u', 'd', 'e', '0', '0', '"'] = none :=
+  ⟨parse_sound (by rfl), by decide +kernel, by decide +kernel⟩
+
+/-- The repair of C41-1 is conservative: a string today's reader accepts is read identically. -/
+theorem C41_repair_keeps_accepted_strings {s : List Char} {x : List Char × List Char}
+    (h : parseCharsPinned s = some x) : parseChars s = some x :=
+  parseCharsPinned_sub s x h
+
+/-- The value of a number token is `mkNum` of its syntactic parts, and for a float token (a
+    fraction is present or the exponent is negative) that is the exact decimal `tokenDec`,
+    normalised — the decimal `nearestMag` rounds ONCE and `pinnedMag` assembles in steps. -/
+theorem C41_float_token_is_its_decimal (s : List Char) (neg : Bool) (ids : List Char)
+    (frac : Option (List Char)) (ex : Int) :
+    parseNumber s = (numParts s).map (fun p => (mkNum p.1.1 p.1.2.1 p.1.2.2.1 p.1.2.2.2, p.2))
+    ∧ (frac.isSome = true ∨ ex < 0 →
+        mkNum neg ids frac ex =
+          .dec (neg && (normDec (tokenDec ids frac ex).1 (tokenDec ids frac ex).2).1 != 0)
+            (normDec (tokenDec ids frac ex).1 (tokenDec ids frac ex).2).1
+            (normDec (tokenDec ids frac ex).1 (tokenDec ids frac ex).2).2) := by
+  refine ⟨parseNumber_eq_parts s, fun h => ?_⟩
+  cases frac with
+  | some fds => rfl
+  | none =>
+    have hx : ¬ (0 ≤ ex) := by
+      rcases h with h | h
+      · cases h
+      · omega
+    simp [mkNum, tokenDec, hx]
+
+set_option maxRecDepth 100000 in
+/-- **Witnesses of C41-2** (each line was observed on the implementation, bit for bit):
+    * `1.118` — today `1 + 118/1000.0` is one unit in the last place below the double nearest
+      to 1.118 (which is what `number_chars/2` writes as `1.118`: the round trip breaks);
+    * `123883370343770940e-1` — the decimal IS a double (`6194168517188547·2`), today's
+      `123883370343770940 * 10.0^-1` gives its neighbour;
+    * `5.0e-324` — the smallest subnormal is read as 0;
+    * `0.00001e313` — the finite value 1e308 overflows on the way (`evaluation_error`). -/
+theorem C41_pinned_float_witnesses :
+    (tokenDec ['1'] (some ['1', '1', '8']) 0 = (1118, -3)
+      ∧ pinnedMag ['1'] (some ['1', '1', '8']) 0 = some ⟨5035024383400214, -52⟩
+      ∧ nearestMag 1118 (-3) = some ⟨5035024383400215, -52⟩)
+    ∧ (pinnedMag ['1','2','3','8','8','3','3','7','0','3','4','3','7','7','0','9','4','0'] none (-1)
+          = some ⟨6194168517188548, 1⟩
+      ∧ nearestMag 123883370343770940 (-1) = some ⟨6194168517188547, 1⟩
+      ∧ 6194168517188547 * 2 * 10 = 123883370343770940)
+    ∧ (pinnedMag ['5'] (some ['0']) (-324) = some ⟨0, -1074⟩ ∧ nearestMag 50 (-325) = some ⟨1, -1074⟩)
+    ∧ (pinnedMag ['0'] (some ['0', '0', '0', '0', '1']) 313 = none
+      ∧ nearestMag 1 308 = some ⟨5010420900022432, 971⟩) := by
+  decide +kernel
+
+-- where the two agree the pinned computation is not always wrong: 0.5, 1.5e3, 100e-2
+set_option maxRecDepth 100000 in
+example : pinnedMag ['0'] (some ['5']) 0 = nearestMag 5 (-1)
+    ∧ pinnedMag ['1'] (some ['5']) 3 = nearestMag 15 2
+    ∧ pinnedMag ['1', '0', '0'] none (-2) = nearestMag 100 (-2) := by decide +kernel
+
 end Scryer.Json
